@@ -167,11 +167,142 @@ def styles(n):
     return out
 
 
+# ---- "ov" family: drivers of the form [unconditional whole-signal default ; conditional and/or partial override]
+VALUE_OPS = tuple(o for o in PB_OPS if o not in ("if", "ifn", "sw", "dflt", "else", "ifd"))
+OV_CONDS = ("if", "sw", "nest", "else", "u")          # u = unconditional (then the override is partial, or replaces the default)
+OV_COVERS = ("full", "b0", "hi", "last")
+OV_FORMS = tuple(c + v for c in OV_CONDS for v in OV_COVERS)
+OV_FORMS_SMALL = ("ifb0", "iffull", "uhi", "nestlast")
+OV_FORMS_MID = ("ifb0", "iffull", "swhi", "nestlast", "elseb0", "ub0", "uhi", "ulast")
+OV_ROLES = ("d", "v", "c", "m0", "m1", "m2", "e", "p")
+OV_OPS3 = ("or", "add_hi", "muxs")
+
+
+def _ov_ok(role, form):
+    # the dependency sits in the override condition for role c (and for some signal of the mixed roles): needs a condition
+    return not (form.startswith("u") and role in ("c", "m0", "m1", "m2"))
+
+
+def ov_styles(level):
+    """level 'A' (tiny graphs: every edge kind), 'B' (larger graphs, chains: three edge kinds), 'T' (thorough: everything)"""
+    out = []
+
+    def add(role, form, op):
+        st = f"ov_{role}_{form}_{op}"
+        if _ov_ok(role, form) and st not in seen:
+            seen.add(st)
+            out.append(st)
+    seen = set()
+    if level == "A":
+        for op in VALUE_OPS:
+            for role in ("d", "v", "c"):
+                for form in OV_FORMS_SMALL + ("swhi",):
+                    add(role, form, op)
+            for role in ("e", "p"):
+                for form in ("ifb0", "uhi", "ufull"):
+                    add(role, form, op)
+            add("d", "ufull", op)
+        for op in OV_OPS3:
+            for role in OV_ROLES:
+                for form in OV_FORMS:
+                    add(role, form, op)
+    elif level == "B":
+        for op in OV_OPS3:
+            for role in OV_ROLES:
+                for form in OV_FORMS_MID + ("ufull",):
+                    add(role, form, op)
+    else:
+        for op in VALUE_OPS:
+            for role in OV_ROLES:
+                for form in OV_FORMS:
+                    add(role, form, op)
+    return out
+
+
 def _fold(op, ts):
     t = ts[0]
     for u in ts[1:]:
         t = (op, t, u)
     return t
+
+
+def pb_term(op, pred_nodes, v):
+    """one-bit realisation of `bit v depends on pred_nodes` with the edge kind `op` -> (conds, rhs term)"""
+    P = [("n", p) for p in pred_nodes]
+    C = ("cat",) + tuple(P)
+    k = len(P)
+    x0, x1 = ("x", v % 4), ("x", (v + 1) % 4)
+    conds = []
+    if op in ("or", "and"):
+        rhs = _fold(op, P + [x0])
+    elif op == "xnor":
+        rhs = ("not", _fold("xor", P + [x0]))
+    elif op == "muxd":
+        rhs = ("x", 7)
+        for j, p in enumerate(P):
+            rhs = ("mux", ("x", j % 4), p, rhs)
+    elif op == "muxs":
+        rhs = ("mux", C, x0, x1)
+    elif op == "catsl":
+        cat = ("cat", x0) + tuple(P) + (x1,)
+        rhs = _fold("or", [("sl", cat, 1 + j, 2 + j) for j in range(k)])
+    elif op == "add_hi":
+        rhs = ("sl", ("add", C, ("c", 1, 1)), k, k + 1)
+    elif op == "add_lo":
+        rhs = ("sl", ("add", C, ("c", 1, 1)), 0, 1)
+    elif op == "sub":
+        rhs = ("sl", ("sub", C, ("xw", 1)), 0, 1)
+    elif op == "mul":
+        rhs = ("sl", ("mul", C, ("xw", 2)), 1, 2)
+    elif op == "div":
+        rhs = ("sl", ("div", ("xw", 3), C), 2, 3)
+    elif op == "mod":
+        rhs = ("sl", ("mod", ("xw", 3), C), 0, 1)
+    elif op == "eq":
+        rhs = ("eq", C, ("xw", k))
+    elif op == "ne":
+        rhs = ("ne", C, ("c", 1, k))
+    elif op == "lt":
+        rhs = ("lt", C, ("xw", k))
+    elif op == "ge":
+        rhs = ("ge", ("xw", k), C)
+    elif op == "shl_amt":
+        rhs = ("sl", ("shl", ("xw", 2), C), 1, 2)
+    elif op == "shl_data":
+        rhs = ("sl", ("shl", C, ("xw", 1)), k, k + 1)
+    elif op == "shr_amt":
+        rhs = ("sl", ("shr", ("xw", 3), C), 0, 1)
+    elif op == "shr_data":
+        rhs = ("sl", ("shr", C, ("xw", 1)), k - 1, k)
+    elif op == "bsel_off":
+        rhs = ("bsel", ("xw", 4), C, 1)
+    elif op == "bsel_val":
+        rhs = ("bsel", C, ("xw", 2), 1)
+    elif op == "neg":
+        rhs = ("sl", ("neg", C), k, k + 1)
+    elif op in ("bool", "any", "all", "rxor"):
+        rhs = (op, C)
+    elif op == "arr_idx":
+        rhs = ("arr", C, ("x", 0), ("x", 1), ("x", 2))
+    elif op == "arr_elem":
+        rhs = ("arr", ("xw", 3)) + tuple(P) + (x0,)
+    elif op == "amem":
+        rhs = ("amem", C, 1)
+    elif op == "if":
+        conds, rhs = [("if", C)], x0
+    elif op == "ifn":
+        conds, rhs = [("if", p) for p in P], x0
+    elif op == "sw":
+        conds, rhs = [("case", C, (1 << k) - 1)], x0
+    elif op == "dflt":
+        conds, rhs = [("default", C)], x0
+    elif op == "else":
+        conds, rhs = [("else", C)], x0
+    elif op == "ifd":
+        conds, rhs = [("if", x1)], _fold("or", P + [x0])
+    else:
+        raise ValueError(op)
+    return conds, rhs
 
 
 def make_groups(layout, edges, style):
@@ -201,80 +332,7 @@ def make_groups(layout, edges, style):
         for v in range(n):
             if not preds[v]:
                 continue
-            P = [("n", p) for p in preds[v]]
-            C = ("cat",) + tuple(P)
-            k = len(P)
-            x0, x1 = ("x", v % 4), ("x", (v + 1) % 4)
-            conds = []
-            if op in ("or", "and"):
-                rhs = _fold(op, P + [x0])
-            elif op == "xnor":
-                rhs = ("not", _fold("xor", P + [x0]))
-            elif op == "muxd":
-                rhs = ("x", 7)
-                for j, p in enumerate(P):
-                    rhs = ("mux", ("x", j % 4), p, rhs)
-            elif op == "muxs":
-                rhs = ("mux", C, x0, x1)
-            elif op == "catsl":
-                cat = ("cat", x0) + tuple(P) + (x1,)
-                rhs = _fold("or", [("sl", cat, 1 + j, 2 + j) for j in range(k)])
-            elif op == "add_hi":
-                rhs = ("sl", ("add", C, ("c", 1, 1)), k, k + 1)
-            elif op == "add_lo":
-                rhs = ("sl", ("add", C, ("c", 1, 1)), 0, 1)
-            elif op == "sub":
-                rhs = ("sl", ("sub", C, ("xw", 1)), 0, 1)
-            elif op == "mul":
-                rhs = ("sl", ("mul", C, ("xw", 2)), 1, 2)
-            elif op == "div":
-                rhs = ("sl", ("div", ("xw", 3), C), 2, 3)
-            elif op == "mod":
-                rhs = ("sl", ("mod", ("xw", 3), C), 0, 1)
-            elif op == "eq":
-                rhs = ("eq", C, ("xw", k))
-            elif op == "ne":
-                rhs = ("ne", C, ("c", 1, k))
-            elif op == "lt":
-                rhs = ("lt", C, ("xw", k))
-            elif op == "ge":
-                rhs = ("ge", ("xw", k), C)
-            elif op == "shl_amt":
-                rhs = ("sl", ("shl", ("xw", 2), C), 1, 2)
-            elif op == "shl_data":
-                rhs = ("sl", ("shl", C, ("xw", 1)), k, k + 1)
-            elif op == "shr_amt":
-                rhs = ("sl", ("shr", ("xw", 3), C), 0, 1)
-            elif op == "shr_data":
-                rhs = ("sl", ("shr", C, ("xw", 1)), k - 1, k)
-            elif op == "bsel_off":
-                rhs = ("bsel", ("xw", 4), C, 1)
-            elif op == "bsel_val":
-                rhs = ("bsel", C, ("xw", 2), 1)
-            elif op == "neg":
-                rhs = ("sl", ("neg", C), k, k + 1)
-            elif op in ("bool", "any", "all", "rxor"):
-                rhs = (op, C)
-            elif op == "arr_idx":
-                rhs = ("arr", C, ("x", 0), ("x", 1), ("x", 2))
-            elif op == "arr_elem":
-                rhs = ("arr", ("xw", 3)) + tuple(P) + (x0,)
-            elif op == "amem":
-                rhs = ("amem", C, 1)
-            elif op == "if":
-                conds, rhs = [("if", C)], x0
-            elif op == "ifn":
-                conds, rhs = [("if", p) for p in P], x0
-            elif op == "sw":
-                conds, rhs = [("case", C, (1 << k) - 1)], x0
-            elif op == "dflt":
-                conds, rhs = [("default", C)], x0
-            elif op == "else":
-                conds, rhs = [("else", C)], x0
-            elif op == "ifd":
-                conds, rhs = [("if", x1)], _fold("or", P + [x0])
-            else:
-                raise ValueError(style)
+            conds, rhs = pb_term(op, preds[v], v)
             group(dom(v), conds, [(("bits", [v]), rhs)])
     elif fam == "w":
         for s, nodes in enumerate(sig_nodes):
@@ -366,6 +424,40 @@ def make_groups(layout, edges, style):
                 group(d or "comb", [], [(("arr", list(G), C), ("x", 0))])
             else:
                 raise ValueError(style)
+    elif fam == "ov":
+        role, form, vop = op.split("_", 2)
+        cond_kind = next(c for c in OV_CONDS if form.startswith(c))
+        cover_kind = form[len(cond_kind):]
+        for s, nodes in enumerate(sig_nodes):
+            w = len(nodes)
+            if not any(preds[v] for v in nodes):
+                continue
+            r = role if role[0] != "m" else "dvc"[(s + int(role[1])) % 3]
+            idx = {"full": list(range(w)), "b0": [0], "hi": list(range(1, w)) or [0], "last": [w - 1]}[cover_kind]
+            cover = [nodes[i] for i in idx]
+            tv = {v: (pb_term(vop, preds[v], v)[1] if preds[v] else ("x", v % 4)) for v in nodes}
+            d_dep = ("cat",) + tuple(tv[v] for v in nodes)
+            d_in = ("sl", ("xw", 8), min(4, 8 - w), min(4, 8 - w) + w)
+            o_in = ("sl", ("xw", 8), 2, 2 + len(cover))
+            ct = ("x", 6)
+            if r in ("d", "e", "p"):
+                default, oval = d_dep, o_in
+            elif r == "v":
+                default, oval = d_in, ("cat",) + tuple(tv[v] for v in cover)
+            else:
+                default, oval = d_in, o_in
+                up = sorted({u for v in cover for u in preds[v]})
+                if up:
+                    ct = pb_term(vop, up, cover[0])[1]
+            conds = {"if": [("if", ct)], "sw": [("case", ct, 1)], "nest": [("if", ("x", 5)), ("if", ct)],
+                     "else": [("else", ct)], "u": []}[cond_kind]
+            whole = ("bits", list(nodes))
+            group("comb", [], [(whole, default)])
+            if r == "p":
+                group("comb", [], [(whole, d_in)])          # replaces the default before anything conditional follows
+            group("comb", conds, [(("bits", cover), oval)])
+            if r == "e":
+                group("comb", [], [(whole, d_in)])          # unconditional whole-signal assignment after the override
     else:
         raise ValueError(style)
     if var == "h":
@@ -380,10 +472,21 @@ def flat_stmts(groups):
 
 
 def dep_truth(layout, groups):
+    """-> (graphs dict of ref.c06_model.node_graphs, verdict, witness cycle)
+    verdict 'CombinationalCycle': a bit reaches itself even when dead assignments are ignored;
+            'ok': no bit reaches itself once the indisputably dead assignments are ignored;
+            'either': a bit reaches itself only through an assignment that a later unconditional assignment makes
+                      unobservable, but which is not part of a leading run of unconditional whole-signal assignments (the
+                      statement does not say whether such a structural loop counts)"""
     node_sb = [(s, b) for s, w in enumerate(layout) for b in range(w)]
     node_of = {sb: v for v, sb in enumerate(node_sb)}
-    g = M.node_graph(flat_stmts(groups), list(layout), node_of)
-    return g, M.find_cycle(g)
+    gs = M.node_graphs(flat_stmts(groups), list(layout), node_of)
+    cyc = M.find_cycle(gs["sem"])
+    if cyc is not None:
+        return gs, "CombinationalCycle", cyc
+    if M.find_cycle(gs["claim"]) is None:
+        return gs, "ok", None
+    return gs, "either", None
 
 
 def dep_sig(case):
